@@ -74,7 +74,7 @@ def gen_C05(chk):
         s = "".join(a + b for a, b in zip(sep, seq + [""]))
         add_parse(chk, s, rng.random() < 0.3, "rndseq")
     # valid formulae rendered with variations, and their mutations
-    props = ["a", "b", "p_1", "EXa", "3x", "Vv", "E", "A1", "été"]
+    props = ["a", "b", "p_1", "EXa", "3x", "Vv", "E", "A1", "été", "AX_a", "EU_b", "AF_", "EG_1x"]
     for j in range(3000 if thorough(chk) else 800):
         ext = rng.random() < 0.5
         f = gen.random_formula(rng, rng.randint(1, 8), props, max_vars=3,
@@ -88,7 +88,8 @@ def gen_C05(chk):
         m = mutate(s, rng)
         add_parse(chk, m, ext, "mutated")
     # identifier shapes
-    shapes = ["EX", "EXa", "EXX", "E", "A", "EU", "AUx", "AW1", "3", "3a", "V", "Vx", "V_", "_", "__x",
+    shapes = ["AX_a", "EX_a", "AU_x", "EW_", "AG_on", "EF_1", "AF__", "A_X", "EG_G", "AW_AW", "_AX",
+              "EX", "EXa", "EXX", "E", "A", "EU", "AUx", "AW1", "3", "3a", "V", "Vx", "V_", "_", "__x",
               "1", "0", "true", "True", "false", "False", "truex", "1a", "a1", "in", "x in", "é",
               "λx", "٣", "a½", "a€b", "a→", "∀{x}: a", "a & b",
               "EX a", "3 {x}: a", "a·b"]
@@ -213,7 +214,7 @@ def sexpr_of(t):
     return "(H %s %s %s %s)" % (t[1], gen.hx(t[2]), gen.hx(t[3]) if t[3] else "_", sexpr_of(t[4]))
 
 
-GOOD_NAMES = ["a", "b_1", "x", "xx", "EXa", "3x", "V1", "é", "_", "Tru", "p0"]
+GOOD_NAMES = ["a", "b_1", "x", "xx", "EXa", "3x", "V1", "é", "_", "Tru", "p0", "AX_a", "EU_1", "AG_", "EW_w", "A_", "3_", "V_x"]
 
 
 def gen_C06(chk):
@@ -231,7 +232,7 @@ def gen_C06(chk):
     for t in pool:
         add_tree(chk, t, "exh")
     for j in range(3000 if thorough(chk) else 700):
-        t = gen.random_formula(rng, rng.randint(3, 25), GOOD_NAMES[:5], scope=["x"], max_vars=4,
+        t = gen.random_formula(rng, rng.randint(3, 25), rng.sample(GOOD_NAMES, 5), scope=["x"], max_vars=4,
                                wilds=("w", "W2"), doms=("d", "D_2"), binops=gen.BINOPS, names=GOOD_NAMES)
         add_tree(chk, t, "deep")
         # through the parsers and through preprocessing
